@@ -133,7 +133,7 @@ func runC11(c *core.Ctx) {
 				d := map[string]any{"type": 2, "key": ki, "challenge": core.Hex(chal), "nonce": core.Hex(nonce), "salt": core.Hex(salt)}
 				pan, pv, where := core.Guard(func() {
 					for bi := 0; bi < B; bi++ {
-						blind := RSABlind(r, bi, key)
+						blind := RSABlind(r, bi+8*mi, key)
 						c.Eval(1)
 						d["blind"] = core.Hex(blind)
 						st, err := type2.NewBasicPublicClient().CreateTokenRequestWithBlind(chal, nonce, kid, iss.TokenKey(), blind, salt)
